@@ -132,9 +132,9 @@ func init() {
 		}
 		// Part 1b: wide fan-out (collection-size thresholds): one parent with k distinct children, then child i is
 		// written again with a grandchild (must merge into the i-th child), for every k <= K and every i
-		maxK := 20
+		maxK := 36
 		if c.Thorough() {
-			maxK = 40
+			maxK = 70
 		}
 		c.Bound("wide_fanout_children", fmt.Sprint(maxK))
 		for k := 1; k <= maxK && !c.Expired(); k++ {
